@@ -200,7 +200,27 @@ def _types(acc, lo, hi, tier):
             errs = sorted(validator.iter_errors(enc), key=lambda e: e.message)
             if errs:
                 acc.outcomes["value-violates-schema"] += 1
-                _tviol(acc, sp, "value-violates-" + ",".join(sorted({str(e.validator) for e in errs})) + "@" + _jsonkind(enc),
+                sub = ""
+                members = docs["output"].get("allOf") if isinstance(docs["output"], dict) else None
+                if isinstance(members, list) and len(members) > 1:
+                    # sub-class of the recorded design-level finding: & converts in sequence, the value satisfies the
+                    # schema of the last argument but not that of an earlier one
+                    defs = {k: v for k, v in docs["output"].items() if k in ("$defs", "definitions")}
+                    ok = [jsonschema.Draft202012Validator({**defs, **m} if isinstance(m, dict) else m).is_valid(enc) for m in members]
+                    if ok[-1] and not all(ok[:-1]):
+                        sub = "@allof-last-member-wins"
+                if not sub and isinstance(docs["output"], dict) and isinstance(docs["output"].get("oneOf"), list):
+                    # sub-class: the value of the single accepting argument is valid under two or more branches
+                    # (valid under none would be another matter)
+                    defs = {k: v for k, v in docs["output"].items() if k in ("$defs", "definitions")}
+                    n_ok = sum(jsonschema.Draft202012Validator({**defs, **m} if isinstance(m, dict) else m).is_valid(enc)
+                               for m in docs["output"]["oneOf"])
+                    if n_ok >= 2:
+                        sub = "@overlap"
+                if not sub and isinstance(enc, bool) and validator.is_valid(int(enc)):
+                    # sub-class: a Python bool where an integer is described, the same number as int would pass
+                    sub = "@bool-as-integer"
+                _tviol(acc, sp, "value-violates-" + ",".join(sorted({str(e.validator) for e in errs})) + "@" + _jsonkind(enc) + sub,
                        f"input {vx} parses to {short(y, 50)} (JSON {json.dumps(enc)[:60]}) which the output schema "
                        f"{json.dumps(docs['output'])[:160]} rejects: {errs[0].message[:80]}", "output", vx)
             else:
